@@ -164,6 +164,9 @@ func readContractFile(path string, pkgPath string) (*ContractFile, error) {
 	var text strings.Builder
 	for i, ln := range strings.Split(string(data), "\n") {
 		t := strings.TrimSpace(ln)
+		if strings.HasPrefix(t, "// @") {
+			t = "//@" + t[4:] // gofmt rewrites //@ to // @ in doc comments
+		}
 		if !strings.HasPrefix(t, "//@") {
 			continue
 		}
